@@ -41,6 +41,7 @@ var UtxoValidationRules = []common.UtxoValidationRuleFunc{
 	UtxoValidateInsufficientCollateral,
 	UtxoValidateCollateralContainsNonAda,
 	UtxoValidateNoCollateralInputs,
+	UtxoValidateTooManyCollateralInputs,
 	UtxoValidateBadInputsUtxo,
 	UtxoValidateScriptWitnesses,
 	UtxoValidateValueNotConservedUtxo,
@@ -447,6 +448,27 @@ func UtxoValidateNoCollateralInputs(
 		return nil
 	}
 	return NoCollateralInputsError{}
+}
+
+// UtxoValidateTooManyCollateralInputs ensures that a transaction does not carry more collateral inputs than the protocol parameters allow
+func UtxoValidateTooManyCollateralInputs(
+	tx common.Transaction,
+	slot uint64,
+	ls common.LedgerState,
+	pp common.ProtocolParameters,
+) error {
+	tmpPparams, ok := pp.(*AlonzoProtocolParameters)
+	if !ok {
+		return errors.New("pparams are not expected type")
+	}
+	collateralCount := uint(len(tx.Collateral()))
+	if collateralCount <= tmpPparams.MaxCollateralInputs {
+		return nil
+	}
+	return TooManyCollateralInputsError{
+		Provided: collateralCount,
+		Max:      tmpPparams.MaxCollateralInputs,
+	}
 }
 
 func UtxoValidateBadInputsUtxo(
